@@ -48,7 +48,7 @@ LEVEL_NOTE = (
 TECHNIQUE = ("Lean 4 proofs (refinement of the window machine, stuttering simulation by induction over executions, composition of "
              "single deletions) + differential correspondence on captured real streams/frames; failing-input search by native "
              "execution of ppci-compiled generated C programs against gcc")
-RULE = ("eval_peephole_stream = one real PeepHoleStream (one per compiled function) or synthetic stream, input and output compared with the model "
+RULE = ("programs: 4 corpus + 7 boundary-directed programs (every constant on or next to an 8/16/32-bit immediate or displacement boundary, struct members at offsets 127/128/129/255/256/32767/32768/32769 through pointers, globals and locals) + generated ones (45 % of the literals from the boundary pool); eval_peephole_stream = one real PeepHoleStream (one per compiled function) or synthetic stream, input and output compared with the model "
         "and checked against the drop rule; eval_frame_alloc_* / eval_captured_frame_alloc = one allocation history; eval_program_run = one "
         "(program, optimisation level, link path) execution whose stdout and exit status are compared with gcc's; non-trivial = stream in which "
         "at least one item was dropped, history with > 2 calls, every executed program (programs contain loops, arrays, structs, calls with up to "
@@ -123,6 +123,9 @@ UNS = {"i": "u", "u": "u", "l": "m", "m": "m"}
 NARROW = {"b": ("signed char", 8, True), "B": ("unsigned char", 8, False), "h": ("short", 16, True), "H": ("unsigned short", 16, False)}
 
 
+BOUNDARY = [b + d for b in (127, 128, 255, 256, 32767, 32768, 65535, 65536, 2 ** 31 - 1, 2 ** 31, 2 ** 32 - 1, 2 ** 32) for d in (-1, 0, 1, 2)]
+
+
 def cname(t):
     return TYPES[t][0] if t in TYPES else NARROW[t][0]
 
@@ -132,6 +135,8 @@ def lit(rng, t, v=None):
     if v is None:
         k = rng.randrange(bits)
         pool = [0, 1, 2, 3, 5, 7, 31, 255, 256, 1 << k, (1 << k) - 1, rng.getrandbits(bits), rng.randint(0, 100)]
+        if rng.random() < 0.45:          # encoding boundaries: 8/16/32-bit immediates and displacements and their neighbours
+            pool = BOUNDARY
         v = rng.choice(pool)
         if signed:
             v = rng.choice([v, -v, v, -(v + 1)])
@@ -424,7 +429,9 @@ class ProgGen:
                 w = rng.choice(["bB", "hH"])
             fields = [(f"f{k}", rng.choice(w)) for k in range(nf)]
             self.structs.append(fields)
-            out.append(f"struct S{si} {{ " + " ".join(f"{cname(t)} {f};" for f, t in fields) + " };")
+            # a padding array in front moves the members to displacement boundaries (127/128/129, 255/256 …); never accessed by name
+            pad = f"unsigned char pad[{rng.choice([120, 124, 127, 128, 129, 248, 252, 255, 256])}]; " if rng.random() < 0.5 else ""
+            out.append(f"struct S{si} {{ " + pad + " ".join(f"{cname(t)} {f};" for f, t in fields) + " };")
         for k in range(rng.randint(1, 3)):
             et = rng.choice(list(TYPES) + list(NARROW))
             n = rng.choice([4, 8])
@@ -551,6 +558,181 @@ def _operators_program():
 CORPUS["operators"] = _operators_program()
 
 
+def _boundary_programs():
+    """fixed boundary-directed programs: every constant sits on an encoding boundary (8/16/32-bit immediates and
+    displacements) or next to one; struct members at byte offsets 127/128/129/255/256/32767/32768/32769 reached through
+    pointers, globals and locals, read and written, with guard areas around them"""
+    progs = {}
+    ks = [127, 128, 129, 255, 256, 257, 32767, 32768, 32769, 65535, 65536, 65537,
+          2 ** 31 - 1, 2 ** 31, 2 ** 31 + 1, 2 ** 32 - 1, 2 ** 32, 2 ** 32 + 1]
+    xs64 = ["0l", "1l", "(-1l)", "1000l", "(-1000l)", "128l", "(-128l)", "4294967296l", "(-2147483648l)"]
+    xs32 = ["0", "1", "(-1)", "1000", "(-1000)", "128", "(-128)", "32768", "(-32768)"]
+
+    def driver(calls):
+        m = ["int c04_main(void) {", "  unsigned long acc = 0ul; unsigned long r; int k;"]
+        for c in calls:
+            m.append(f"  r = (unsigned long)({c}); put_hex(r); acc = acc * 31ul + r;")
+        m += ["  put_hex(acc);", "  return (int)(acc & 127ul);", "}"]
+        return "\n".join(m) + "\n"
+
+    # -- x + K, x - K, K - x (signed directly where no overflow is possible, and in the unsigned type)
+    def addsub(name, t, ut, suf, usuf, klist, xs):
+        body = [f"{t} {name}_s({t} x) {{ unsigned long r = 17ul;"]
+        for k in klist:
+            body.append(f"  r = r * 31ul + (unsigned long)(x + {k}{suf}); r = r * 31ul + (unsigned long)(x - {k}{suf}); r = r * 31ul + (unsigned long)({k}{suf} - x);")
+            body.append(f"  r = r * 31ul + (unsigned long)(x + (-{k}{suf}));")
+        body.append(f"  return ({t})r; }}")
+        body.append(f"{ut} {name}_u({ut} x) {{ unsigned long r = 17ul;")
+        for k in klist:
+            body.append(f"  r = r * 31ul + (unsigned long)(x + {k}{usuf}); r = r * 31ul + (unsigned long)(x - {k}{usuf}); r = r * 31ul + (unsigned long)({k}{usuf} - x);")
+        body.append(f"  return ({ut})r; }}")
+        # one small function per constant as well (the selector sees `x + K` alone: lea / add-immediate forms)
+        for k in klist:
+            body.append(f"{t} {name}_p{k}({t} x) {{ return x + {k}{suf}; }}  {t} {name}_m{k}({t} x) {{ return x - {k}{suf}; }}")
+        calls = []
+        for x in xs:
+            calls.append(f"{name}_s({x})")
+            calls.append(f"{name}_u(({ut}){x})")
+        for k in klist:
+            for x in xs[:5]:
+                calls.append(f"{name}_p{k}({x})")
+                calls.append(f"{name}_m{k}({x})")
+        return "\n".join(body) + "\n", calls
+    b, c = addsub("al", "long", "unsigned long", "l", "ul", ks, xs64)
+    progs["boundary-add-long"] = PRELUDE + b + driver(c)
+    b, c = addsub("ai", "int", "unsigned", "", "u", [k for k in ks if k <= 65537], xs32)
+    progs["boundary-add-int"] = PRELUDE + b + driver(c)
+
+    # -- comparisons against K at K-1, K, K+1
+    body, calls = [], []
+    for t, suf, klist in (("int", "", [k for k in ks if k < 2 ** 31 - 1]), ("unsigned", "u", [k for k in ks if k < 2 ** 32 - 1]),
+                          ("long", "l", ks), ("unsigned long", "ul", ks)):
+        fn = "cmp_" + t.replace(" ", "_")
+        body.append(f"int {fn}({t} x) {{ int r = 0;")
+        for k in klist:
+            body.append(f"  r = r * 3 + (x < {k}{suf}) + (x == {k}{suf}) * 2; if (x >= {k}{suf}) {{ r = r ^ 5; }} if (x != {k}{suf}) {{ r = r + 1; }} r = r & 1048575;")
+        body.append("  return r; }")
+        for k in klist:
+            for d in (-1, 0, 1):
+                calls.append(f"{fn}({k + d}{suf})")
+        if t in ("int", "long"):
+            body.append(f"int {fn}_neg({t} x) {{ int r = 0;")
+            for k in klist:
+                body.append(f"  r = r * 3 + (x < (-{k}{suf})) + (x == (-{k}{suf})) * 2; if (x > (-{k}{suf})) {{ r = r ^ 5; }} r = r & 1048575;")
+            body.append("  return r; }")
+            for k in klist:
+                for d in (-1, 0, 1):
+                    calls.append(f"{fn}_neg(({t})({-k + d}{suf}))")
+    progs["boundary-compare"] = PRELUDE + "\n".join(body) + "\n" + driver(calls)
+
+    # -- immediates of & | ^ * / %, constant shift counts
+    body, calls = [], []
+    for t, suf, bits in (("unsigned", "u", 32), ("unsigned long", "ul", 64)):
+        fn = "imm_" + t.replace(" ", "_")
+        klist = [k for k in ks if k < 2 ** bits]
+        body.append(f"{t} {fn}({t} x) {{ {t} r = 17{suf};")
+        for k in klist:
+            body.append(f"  r = r * 31{suf} + (x & {k}{suf}); r = r * 31{suf} + (x | {k}{suf}); r = r * 31{suf} + (x ^ {k}{suf}); r = r * 31{suf} + (x * {k}{suf}); "
+                        f"r = r * 31{suf} + (x / {k}{suf}); r = r * 31{suf} + (x % {k}{suf});")
+        for c in [0, 1, 7, 8, 15, 16, 31] + ([32, 33, 63] if bits == 64 else []):
+            body.append(f"  r = r * 31{suf} + (x << {c}{suf}); r = r * 31{suf} + (x >> {c}{suf});")
+        body.append("  return r; }")
+        for x in ("0", "1", "127", "128", "255", "256", "65535", "65536", "2147483647", "2147483648", "4294967295", "305419896"):
+            calls.append(f"{fn}({x}{suf})")
+        if bits == 64:
+            calls += [f"{fn}(4294967296ul)", f"{fn}(18446744073709551615ul)", f"{fn}(9223372036854775808ul)"]
+    for t, suf, bits in (("int", "", 32), ("long", "l", 64)):
+        fn = "sar_" + t
+        body.append(f"{t} {fn}({t} x) {{ {t} r = 0{suf};")
+        for c in [0, 1, 7, 8, 15, 16, 31] + ([32, 33, 63] if bits == 64 else []):
+            body.append(f"  r = r ^ (x >> {c}{suf});")
+        for k in (127, 128, 129, 255, 256, 32767, 32768):
+            body.append(f"  r = r ^ (x / {k}{suf}) ^ (x % {k}{suf}) ^ (x & {k}{suf});")
+        body.append("  return r; }")
+        for x in ("0", "1", "(-1)", "127", "128", "(-128)", "(-129)", "32768", "(-32769)", "2147483647", "(-2147483647 - 1)"):
+            calls.append(f"{fn}({x}{suf if x[0] != '(' or 'l' in suf else ''})" if suf == "" else f"{fn}(({t}){x})")
+    progs["boundary-immediates"] = PRELUDE + "\n".join(body) + "\n" + driver(calls)
+
+    # -- struct members at exact displacements, through pointers, globals and locals
+    def structs(name, offs, with_local):
+        body, calls = [], []
+        for n in offs:
+            body.append(f"struct B{n} {{ unsigned char pad[{n}]; unsigned char c; unsigned char t; }};")
+            kinds = [("B", "unsigned char", "c", "t")]
+            if n % 8 == 0:
+                body.append(f"struct L{n} {{ long pre[{n // 8}]; long m; long post; }};")
+                kinds.append(("L", "long", "m", "post"))
+            if n % 4 == 0:
+                body.append(f"struct I{n} {{ int pre[{n // 4}]; int m; int post; }};")
+                kinds.append(("I", "int", "m", "post"))
+            for kd, mt, mem, nxt in kinds:
+                st = f"struct {kd}{n}"
+                tag = f"{kd}{n}"
+                arr, cnt = ("pad", n) if kd == "B" else ("pre", n // (8 if kd == "L" else 4))
+                body.append(f"unsigned long guard_a_{tag}[20];")
+                body.append(f"{st} g_{tag};")
+                body.append(f"unsigned long guard_b_{tag}[20];")
+                body.append(f"{st} pool_{tag}[3];")
+                body.append(f"void set_{tag}({st} *p, long v) {{ p->{mem} = ({mt})v; }}")
+                body.append(f"void setn_{tag}({st} *p, long v) {{ p->{nxt} = ({mt})v; }}")
+                body.append(f"long get_{tag}({st} *p) {{ return (long)p->{mem}; }}")
+                body.append(f"long getn_{tag}({st} *p) {{ return (long)p->{nxt}; }}")
+                body.append(f"void fill_{tag}({st} *p, long v) {{ int k; for (k = 0; k < {cnt}; k = k + 1) {{ p->{arr}[k] = ({mt if kd != 'B' else 'unsigned char'})(v + (long)k); }} p->{mem} = ({mt})(v * 3l); p->{nxt} = ({mt})(v * 5l); }}")
+                body.append(f"unsigned long sum_{tag}({st} *p) {{ unsigned long r = 7ul; int k; for (k = 0; k < {cnt}; k = k + 1) {{ r = r * 31ul + (unsigned long)p->{arr}[k]; }} "
+                            f"r = r * 31ul + (unsigned long)p->{mem}; r = r * 31ul + (unsigned long)p->{nxt}; return r; }}")
+                body.append(f"unsigned long gsum_{tag}(void) {{ unsigned long r = 3ul; int k; for (k = 0; k < 20; k = k + 1) {{ r = r * 31ul + guard_a_{tag}[k]; r = r * 31ul + guard_b_{tag}[k]; }} return r; }}")
+                body.append(f"long glob_{tag}(long v) {{ g_{tag}.{mem} = ({mt})v; g_{tag}.{nxt} = ({mt})(v + 1l); g_{tag}.{arr}[{cnt - 1}] = ({mt if kd != 'B' else 'unsigned char'})(v + 2l); "
+                            f"return (long)g_{tag}.{mem} * 65536l + (long)g_{tag}.{nxt} * 256l + (long)g_{tag}.{arr}[{cnt - 1}]; }}")
+                if with_local:
+                    body.append(f"long loc_{tag}(long v) {{ {st} q; {st} r2; fill_{tag}(&q, v); q.{mem} = ({mt})(v + 9l); r2 = q; r2.{nxt} = ({mt})(v + 11l); "
+                                f"return (long)(sum_{tag}(&q) * 3ul + sum_{tag}(&r2)) + (long)r2.{mem} + (long)q.{nxt}; }}")
+                calls += [f"(fill_{tag}(&g_{tag}, 5l), sum_{tag}(&g_{tag}))", f"(fill_{tag}(&pool_{tag}[0], 1l), fill_{tag}(&pool_{tag}[1], 2l), fill_{tag}(&pool_{tag}[2], 3l), 0)",
+                          f"(set_{tag}(&pool_{tag}[1], 77l), get_{tag}(&pool_{tag}[1]))", f"(setn_{tag}(&pool_{tag}[1], 78l), getn_{tag}(&pool_{tag}[1]))",
+                          f"sum_{tag}(&pool_{tag}[0])", f"sum_{tag}(&pool_{tag}[1])", f"sum_{tag}(&pool_{tag}[2])",
+                          f"(set_{tag}(&g_{tag}, 99l), get_{tag}(&g_{tag}) + getn_{tag}(&g_{tag}))", f"glob_{tag}(41l)", f"sum_{tag}(&g_{tag})", f"gsum_{tag}()"]
+                if with_local:
+                    calls.append(f"loc_{tag}(13l)")
+        return PRELUDE + "\n".join(body) + "\n" + driver(calls)
+    progs["boundary-struct-8bit"] = structs("s8", [120, 124, 127, 128, 129, 136], True)
+    progs["boundary-struct-16bit"] = structs("s16", [255, 256, 32767, 32768, 32769], True)
+
+    # -- constant indices and pointer offsets into global and local arrays
+    body, calls = [], []
+    body.append("unsigned char gc[70000]; int gi[300]; long gl[300];")
+    body.append("void init(void) { int k; for (k = 0; k < 70000; k = k + 1) { gc[k] = (unsigned char)(k * 7 + 3); } for (k = 0; k < 300; k = k + 1) { gi[k] = k * 1001 - 7; gl[k] = (long)k * 100003l - 11l; } }")
+    idx_c = [k for k in ks if k < 70000]
+    rd = " ".join(f"r = r * 31ul + (unsigned long)p[{k}]; r = r * 31ul + (unsigned long)*(p + {k}); r = r * 31ul + (unsigned long)gc[{k}];" for k in idx_c)
+    body.append(f"unsigned long rd_c(unsigned char *p) {{ unsigned long r = 1ul; {rd} return r; }}")
+    wr = " ".join(f"p[{k}] = (unsigned char)(v + {i}); *(p + {k + 1}) = (unsigned char)(v + {i + 50}); gc[{k + 2}] = (unsigned char)(v + {i + 100});" for i, k in enumerate(idx_c))
+    body.append(f"void wr_c(unsigned char *p, int v) {{ {wr} }}")
+    body.append("unsigned long sum_c(void) { unsigned long r = 1ul; int k; for (k = 0; k < 70000; k = k + 1) { r = r * 31ul + (unsigned long)gc[k]; } return r; }")
+    for t, arr, scale in (("int", "gi", 4), ("long", "gl", 8)):
+        idx = sorted({k // scale + d for k in (127, 128, 129, 255, 256, 257) for d in (-1, 0, 1)} | {127, 128, 129, 255, 256, 257})
+        rd = " ".join(f"r = r * 31ul + (unsigned long)p[{k}]; r = r * 31ul + (unsigned long)*(p + {k}); r = r * 31ul + (unsigned long){arr}[{k}];" for k in idx)
+        body.append(f"unsigned long rd_{t}({t} *p) {{ unsigned long r = 1ul; {rd} return r; }}")
+        wr = " ".join(f"p[{k}] = ({t})(v + {i}); " for i, k in enumerate(idx)) + " ".join(f"{arr}[{k + 1}] = ({t})(v - {i});" for i, k in enumerate(idx[::2]))
+        body.append(f"void wr_{t}({t} *p, {t} v) {{ {wr} }}")
+        body.append(f"unsigned long sum_{t}(void) {{ unsigned long r = 1ul; int k; for (k = 0; k < 300; k = k + 1) {{ r = r * 31ul + (unsigned long){arr}[k]; }} return r; }}")
+    # locals: frame-pointer relative displacements sweep across -128 / -129 / -32768
+    body.append("unsigned long loc_sweep(int v) { unsigned char buf[300]; long la[40]; int k; unsigned long r = 1ul; "
+                "for (k = 0; k < 300; k = k + 1) { buf[k] = (unsigned char)(k + v); } for (k = 0; k < 40; k = k + 1) { la[k] = (long)(k * v); } "
+                + " ".join(f"buf[{k}] = (unsigned char)(buf[{k}] + {k % 7 + 1});" for k in range(0, 300, 1) if k % 3 == 0 or k in (127, 128, 129, 255, 256))
+                + " " + " ".join(f"la[{k}] = la[{k}] + {k + 1}l;" for k in range(40))
+                + " for (k = 0; k < 300; k = k + 1) { r = r * 31ul + (unsigned long)buf[k]; } for (k = 0; k < 40; k = k + 1) { r = r * 31ul + (unsigned long)la[k]; } return r; }")
+    body.append("unsigned long loc_big(int v) { unsigned char big[33000]; int k; unsigned long r = 1ul; for (k = 0; k < 33000; k = k + 1) { big[k] = (unsigned char)(k * 3 + v); } "
+                + " ".join(f"big[{k}] = (unsigned char)(big[{k}] ^ {k % 200 + 1});" for k in (0, 1, 100, 127, 128, 129, 200, 231, 232, 233, 32767 - 200, 32767, 32768, 32769, 32999))
+                + " for (k = 0; k < 33000; k = k + 1) { r = r * 31ul + (unsigned long)big[k]; } return r; }")
+    calls = ["(init(), 1)", "rd_c(gc)", "rd_c(gc + 1)", "(wr_c(gc, 17), sum_c())", "(wr_c(gc + 3, 29), sum_c())",
+             "rd_int(gi)", "rd_int(gi + 1)", "(wr_int(gi, 1234567), sum_int())", "(wr_int(gi + 2, -7654321), sum_int())",
+             "rd_long(gl)", "rd_long(gl + 1)", "(wr_long(gl, 123456789012l), sum_long())", "(wr_long(gl + 2, -98765432101l), sum_long())",
+             "loc_sweep(3)", "loc_sweep(-5)", "loc_big(1)", "loc_big(-2)"]
+    progs["boundary-arrays"] = PRELUDE + "\n".join(body) + "\n" + driver(calls)
+    return progs
+
+
+BOUNDARY_PROGRAMS = _boundary_programs()
+
+
 # ---- building and running ----------------------------------------------------------------------------------
 
 def _quiet():
@@ -664,6 +846,7 @@ def program_search(ctx, parts):
     nprog = 30 if ctx.thorough else 3
     base = ctx.rng.randrange(1 << 30)
     programs = [(name, src) for name, src in CORPUS.items()]
+    programs += list(BOUNDARY_PROGRAMS.items())
     for k in range(nprog):
         programs.append((f"gen-seed-{base + k}", ProgGen(random.Random(base + k)).build()))
     tmp = tempfile.mkdtemp(prefix="c04-")
@@ -682,7 +865,8 @@ def program_search(ctx, parts):
                 ctx.count("generator_ub")
                 continue
             refs[name] = (src, ref)
-            for opt in OPTS:
+            # quick tier: the boundary programs at -O0 and -O2 only (both link paths); everything else at all four levels
+            for opt in (OPTS if ctx.thorough or name not in BOUNDARY_PROGRAMS else [0, 2]):
                 jobs.append((name, (str(common.REPO), src, opt, wd, True)))
         workers = min(8 if ctx.thorough else 4, max(1, (os.cpu_count() or 2) // 2))
         with ProcessPoolExecutor(max_workers=workers) as ex:
